@@ -590,6 +590,8 @@ def check(prop, tier, seed, replay=None):
             ok2, out2 = run.replay_hard(replay, plan["single"], wd)
             out += out2
         print(out[-3000:] if not (ok and ok2) else "replay: all predicates hold on " + replay)
+        if not (ok and ok2):
+            print("VIOLATION property=%s replay=%s" % (prop, replay))
         return 0 if ok and ok2 else 1
     cov = {"states": 0, "transitions": 0, "traces_validated_against_impl": 0, "samples": [],
            "model_runs": [], "scripts": {}}
